@@ -200,8 +200,10 @@ PLANS["C06"] = dict(
 )
 
 PLANS["C07"] = dict(
-    mc=[("c07", dict(Hosts='{"h1", "h2"}', MaxRADelay=2, MaxIn=3, MaxT=9, MaxHolds=1, WriteFaults="FALSE"),
-         dict(MaxIn=3, MaxT=10, MaxHolds=1, WriteFaults="TRUE")),
+    mc=[("c07", dict(Hosts='{"h1", "h2"}', MaxRADelay=2, MaxIn=2, MaxT=7, MaxHolds=1, WriteFaults="FALSE"),
+         dict(MaxIn=3, MaxT=9, MaxHolds=1)),
+        ("c07burst", dict(Hosts='{"h1", "h2"}', MaxRADelay=2, MaxIn=3, MaxT=2, MaxHolds=0, WriteFaults="TRUE", ChanCap=1),
+         dict(MaxIn=4, MaxT=3)),
         ("c07uni", dict(Hosts='{"h1"}', UnicastOnly="TRUE", MaxIn=3, MaxT=8), dict(MaxIn=4))],
     env=[("a", dict(Srcs='{"unspec", "h1", "h2"}', MaxEv=3, MaxT=8), dict(MaxEv=4, MaxT=9), [DEF, UNI, FAST]),
          ("hold", dict(Srcs='{"h1", "h2"}', HoldDsts='{"h1"}', MaxEv=4, MaxT=4), dict(MaxEv=5), [DEF, UNI])],
